@@ -195,6 +195,14 @@ class C03(TreeSpec):
             # whose size is pure rounding noise (and not scale-invariant)
             res["info"]["inconclusive_twin_residue_amplification"] = 1
             return res
+        def dust(sim, cap):
+            # a trade of float-residue size (1e-15 units): it exists at one capital and not at another (the library's zero
+            # threshold is absolute), and the weights it leaves behind then steer real capital
+            return any(abs(tr[2]) > 0 and abs(tr[4]) < 1e-9 * (abs(cap) + 1e-300) and abs(tr[2] * (sim.feed.price(tr[0], tr[1][-1]) or 0.0)) < 1e-9 * (abs(cap) + 1e-300) for tr in sim.trade_log)
+
+        if dust(sim_a, plan["cfg"]["capital"]) or dust(sim_b, plan["cfg"]["capital"] * k):
+            res["info"]["inconclusive_twin_residue_sized_trade"] = 1
+            return res
         a = sim_a.series(sim_a.root, "prices")
         b = sim_b.series(sim_b.root, "prices")
         if len(a) != len(b):
